@@ -533,7 +533,7 @@ func (a *effAnalysis) addrLoc(addr ssa.Value) Loc {
 		if nt, ok := st.(*types.Named); ok {
 			sname = nt.Obj().Name()
 		}
-		fld := st.Underlying().(*types.Struct).Field(x.Field).Name()
+		fld := fieldName(st, x.Field)
 		l := Loc{Root: base.Root, Flat: sname + "." + fld}
 		if base.Root != "a" && base.Root != "o" {
 			l.Path = base.Path + "." + fld
@@ -697,7 +697,7 @@ func (a *effAnalysis) mapLoc(l Loc, args []ssa.Value) Loc {
 				if m := firstField.FindStringSubmatch(l.Path); m != nil && m[2] != "" {
 					if st, ok := al.Type().Underlying().(*types.Pointer).Elem().Underlying().(*types.Struct); ok {
 						for i := 0; i < st.NumFields(); i++ {
-							if st.Field(i).Name() == m[1] {
+							if fieldName(al.Type().Underlying().(*types.Pointer).Elem(), i) == m[1] {
 								if fo, ok := a.fieldForward(al, i); ok && fo.Root != "a" && fo.Root != "o" {
 									nl.Root = fo.Root
 									nl.Path = fo.Path + m[2]
